@@ -13,6 +13,7 @@ cluster.py) -> correspond:
 """
 import json
 import time
+import numpy as np
 
 from lib import common as C
 from props import sbc_gen as G
@@ -123,7 +124,71 @@ def gen_cases(ctx, quick):
                             kinds=["vacancies", "vacancies", "vacancies", "defective", "crystal", "two", "gas", "molecules", "degenerate", "tiny"])
         # the family of the defect: supercells with 20-60 % vacancies are over-represented here
         cases.append(c)
+    for c in decimal_tie_cases(rng, 40 if quick else 400, len(cases)):
+        cases.append(c)
     return cases, ncorp, (n_hist, n_sprop, n_real, max_atoms)
+
+
+def decimal_tie_cases(rng, k, nid0):
+    """Axis-aligned crystals with round decimal lattice constants, clustered with a per-atom radii array and a bond threshold
+    such that the nearest-neighbour contacts sit on the threshold IN DECIMAL NUMBERS (d - r_i - r_j == threshold): the shortcut
+    and the direct evaluation must still agree -- both have to evaluate the same floating-point expression on the same numbers."""
+    from ase import Atoms
+    from ase.build import bulk
+    out = []
+    for t in range(k):
+        kind = rng.choice(["rocksalt", "rocksalt", "sc", "sc", "cscl", "fcc"])
+        a = rng.choice([5.64, 4.2, 6.0, 5.0, 4.8, 5.2]) if kind == "rocksalt" else rng.choice([3.2, 2.8, 3.0, 2.6, 3.6])
+        if kind == "rocksalt":
+            at = bulk("NaCl", "rocksalt", a=a, cubic=True)
+            dnn = a / 2
+        elif kind == "sc":
+            at = Atoms("Cu", cell=[a, a, a], pbc=True)
+            dnn = a
+        elif kind == "cscl":
+            at = Atoms("CsCl", scaled_positions=[[0, 0, 0], [0.5, 0.5, 0.5]], cell=[a, a, a], pbc=True)
+            dnn = None      # a * sqrt(3) / 2: not a decimal; the second-neighbour contact a is
+        else:
+            at = bulk("Cu", "fcc", a=a, cubic=True)
+            dnn = None
+        reps = rng.choice([(2, 2, 2), (3, 2, 2), (3, 3, 2), (2, 2, 1), (3, 3, 3)]) if len(at) <= 2 else rng.choice([(1, 1, 1), (2, 1, 1), (2, 2, 1), (2, 2, 2)])
+        at = at * reps
+        if len(at) > 70:
+            continue
+        mode = rng.choice(["bulk", "bulk", "slab", "finite", "vacancy"])
+        if mode == "slab":
+            at.center(vacuum=rng.choice([5.0, 6.0, 7.5]), axis=2)
+            at.set_pbc([True, True, False])
+        elif mode == "finite":
+            at.center(vacuum=5.0)
+            at.set_pbc(False)
+        elif mode == "vacancy" and len(at) > 4:
+            del at[rng.randrange(len(at))]
+        species = sorted(set(at.get_atomic_numbers().tolist()))
+        d = dnn if dnn is not None else a
+        # two-decimal radii whose sum leaves a two-decimal threshold in (0.3, 1.0)
+        cents = int(round(d * 100))
+        thr_c = rng.choice([t_ for t_ in range(30, 100, 5)])
+        rest = cents - thr_c
+        if rest < 40:
+            continue
+        if len(species) == 1:
+            if rest % 2:
+                thr_c += 1
+                rest -= 1
+            rmap = {species[0]: rest // 2 / 100.0}
+        else:
+            r1 = rng.randrange(20, rest - 19)
+            rmap = {species[0]: r1 / 100.0, species[1]: (rest - r1) / 100.0}
+        radii = [rmap[z] for z in at.get_atomic_numbers().tolist()]
+        st = {"numbers": [int(z) for z in at.get_atomic_numbers()], "positions": at.get_positions().tolist(),
+              "cell": np.array(at.get_cell()).tolist(), "pbc": [bool(b) for b in at.get_pbc()]}
+        params = {"bond_threshold": thr_c / 100.0, "merge_threshold": 0.5, "merge_radius": 1, "max_cell_size": 6, "pos_tol": 0.7,
+                  "seed": rng.randrange(100), "radii": {"array": radii}}
+        out.append({"id": nid0 + len(out), "mode": "real", "matrix": False, "twice": False, "structure": st, "params": params,
+                    "meta": {"kind": "decimal-tie:" + kind + ":" + mode, "n": len(at), "pbc": "".join("T" if b else "F" for b in at.get_pbc()), "wrapped": True},
+                    "time_limit": 240})
+    return out
 
 
 def run(ctx):
